@@ -83,6 +83,10 @@ def main():
                     rec.update(ok=False, why='branching-or-closed', got=f'{len(tab)} branches closed={b.closed}', expected='one open branch')
                     res.append(rec); continue
                 got = {tuple(n.pair()) for n in b if 'world1' in n}
+                seq = [list(n.pair()) for n in b if 'world1' in n]
+                rec['steps'] = seq[len(pairs):]
+                rec['flags'] = [bool(need[0]), bool(need[1]), bool(need[2])]
+                rec['branch_worlds'] = sorted({w for n in b for w in ([n['world']] if 'world' in n and n.get('world') is not None else []) + ([n['world1'], n['world2']] if 'world1' in n else [])})
                 carried = {n['world'] for n in b if 'sentence' in n}
                 if need[3]:
                     # serial: every world carrying a sentence has a successor; only (w, fresh) pairs are added
